@@ -53,7 +53,7 @@ def _run_scenario(args):
         return dict(
             scenario=sname, obligations=obs, paths=ex.paths, truncated=ex.truncated_paths, undecided=ex.undecided_paths,
             notes={k: sorted(v) for k, v in ex.notes_all.items()}, functions=dict(I.SRC.used), solver_s=round(ex.solver_seconds, 3),
-            wall_s=round(time.time() - t0, 3), crash=None, declared=sc.functions,
+            wall_s=round(time.time() - t0, 3), crash=None, declared=sc.functions, conf=ex.conf_samples,
         )
     except Exception:
         return dict(scenario=sname, obligations=[], paths=0, truncated=0, undecided=[], notes={}, functions={}, solver_s=0, wall_s=round(time.time() - t0, 3), crash=traceback.format_exc(), declared=[])
@@ -174,6 +174,19 @@ def main(argv=None):
             rep = pool.apply(_replay_native, ((pid, sname, model),)) if model is not None else dict(failed=[], checked=[], note="no model", crash=None)
             ok = name in rep["failed"]
             confirmed.append((sname, name, full, bad, rep, ok))
+        # ---- CPython conformance of the symbolic executor on sampled paths
+        conf_total = conf_bad = 0
+        for r in sres:
+            for cs in r.get("conf", []) or []:
+                rep = pool.apply(_replay_native, ((pid, r["scenario"], cs["model"]),))
+                conf_total += 1
+                keep = lambda n: "/inv." not in n and not ("[KF-" in n and "[outside" not in n)
+                rep["checked"] = [n for n in rep["checked"] if keep(n)]
+                rep["failed"] = [n for n in rep["failed"] if keep(n)]
+                cs["names"] = [n for n in cs["names"] if keep(n)]
+                if rep["crash"] or rep["checked"] != cs["names"] or set(rep["failed"]) != set(cs["failed_sym"]):
+                    conf_bad += 1
+                    undecided.append(f"{r['scenario']}: ENGINE-MISMATCH symbolic path vs CPython on {json.dumps(cs['model'], default=str)[:300]}: sym reached {cs['names'][:6]}.. failed {cs['failed_sym']}; native reached {rep['checked'][:6]}.. failed {rep['failed']} {(rep['crash'] or '')[-300:]}")
         # ---- known findings with a T1 witness: replay the committed witness on the real code
         for e in kf:
             if e.get("kind", "t1") == "t1" and e.get("witness") is not None:
@@ -246,7 +259,7 @@ def main(argv=None):
         trusted_base=sorted(notes.get("lib", set())) + sorted("summary:" + s for s in notes.get("summary", set())),
         explanation=getattr(mod, "EXPLANATION", ""),
         functions_under_contract=sorted(functions.values(), key=lambda d: (d["file"], d["lines"][0])),
-        obligations_by_backend=by_backend, solver_seconds=round(solver_s, 2),
+        obligations_by_backend=by_backend, conformance_samples=conf_total, conformance_mismatches=conf_bad, solver_seconds=round(solver_s, 2),
         undecided=undecided[:50], bounded_items=sorted(notes.get("bounded", set())),
         assumed=sorted(notes.get("assumed", set())) + sorted(notes.get("assumed-assert", set())) + sorted(notes.get("assumed-precondition", set())),
         opaque=sorted(notes.get("opaque", set())),
